@@ -343,6 +343,7 @@ fn minimise_c18(rf: &ReplayFile, max_execs: u64) -> ReplayFile {
         sched: Some(SchedSpec::List { choices }),
         aisle: None,
         depth: None,
+        storm: None,
         violations: viol.into_iter().filter(|v| v.class == rf.class).take(3).collect(),
         minimised: true,
         notes,
@@ -470,6 +471,7 @@ fn minimise_c11(rf: &ReplayFile) -> ReplayFile {
         sched: None,
         aisle: Some(sc),
         depth: None,
+        storm: None,
         violations: viol.into_iter().filter(|v| v.class == class).take(3).collect(),
         minimised: true,
         notes,
